@@ -208,6 +208,8 @@ def build_units(units):
             objs.setdefault(u.name, [])
             if obj:
                 objs[u.name].append(obj)
+    if units and all(u.regs and len(u.skipped) == len(u.regs) for u in units):
+        raise HarnessError('nothing in any unit compiles:\n%s' % getattr(units[0], 'last_compile_error', ''))
     for u in units:
         key = sha(*(objs[u.name] + [fuzz_engine_obj() if u.cfg == 'fuzz' else eng, u.cfg]))
         binp = os.path.join(BUILD, 'bin', '%s-%s' % (u.name, key))
@@ -266,7 +268,11 @@ def bisect_tu(u, i, err):
             first_err = first_err or out
     if not good:
         if len(u.skipped) == len(u.regs):
-            raise HarnessError('nothing in %s compiles:\n%s' % (u.name, (first_err or err)[-3000:]))
+            # every registration of this unit fails to compile. A change to /repo can do that to one unit (a static_assert of the
+            # oracle on a result type, say): the registrations are then reported one by one through the allowlist rule
+            # (instantiation-does-not-compile). Only if *no* unit of the plan compiles is it treated as a broken harness (build_units).
+            u.last_compile_error = (first_err or err)[-3000:]
+            log('[build] nothing in %s compiles' % u.name)
         return None
     body = '\n'.join('    %s;' % r for r in good)
     src = '#include "%s"\n%s\nstatic void vf_reg()\n{\n%s\n}\nVF_REGISTER(vf_reg)\n' % (u.header, u.prelude, body)
